@@ -2,7 +2,7 @@
 # Run once after a fresh restore, offline: builds the tools and warms the Go build cache so
 # that the per-check rebuilds take seconds.
 set -u
-cd /verif
+cd "$(dirname "$0")/.."
 export GOFLAGS=-mod=mod GOPROXY=off GOSUMDB=off GOTOOLCHAIN=local
 GO=go1.26.8; command -v $GO >/dev/null 2>&1 || GO=/opt/veriftools/go1.26.8/bin/go
 mkdir -p .cache/bin out evidence
